@@ -1,14 +1,17 @@
 -------------------------- MODULE TokenSaltTraceKF --------------------------
 (***************************************************************************)
-(* Judge for the C19 traces that fall into the two recorded known findings *)
-(* of the legacy saltAuthToken (KF-C19-1: token in a form body, KF-C19-2:  *)
-(* token in the arvados_api_token cookie).  Every run judges a sample of   *)
-(* those traces with the contract proper (TokenSaltTrace) to re-confirm    *)
-(* the findings; the others are judged here, with the disclosure clauses   *)
-(* waived for exactly the tokens placed in a form body or cookie of a      *)
-(* request to the legacy site - every other clause, and every other token  *)
-(* of the same request, is judged as usual, so that a different violation  *)
-(* in these requests still alarms.                                         *)
+(* Judge for the C19 traces of requests that fall into the two recorded     *)
+(* known findings of the legacy saltAuthToken (KF-C19-1: protected token   *)
+(* in a form body, KF-C19-2: protected token in the arvados_api_token      *)
+(* cookie).  ALL those traces are judged here; a seeded sample of them is  *)
+(* also judged with the contract proper (TokenSaltTrace) to re-confirm the *)
+(* findings on every run.  What is waived is stated in the header of       *)
+(* TokenSaltContract (AllowedW): only "the secret of a form token is seen  *)
+(* in the body", "the secret of a cookie token is seen in the Cookie       *)
+(* header", and "a lone form token appears salted".  The secret of such a  *)
+(* token showing up in the URL, in Authorization or any other header, a    *)
+(* token salted twice, and every clause about the other tokens of the same *)
+(* request are still rejected here.                                        *)
 (***************************************************************************)
 EXTENDS TokenSaltContract, TraceIO
 
